@@ -1,11 +1,5 @@
 """Registry of properties and their harnesses (see DESIGN.md section 5)."""
-from check import Harness as H
-
-PROPERTIES = {}
-
-def prop(pid, level, explanation, harnesses, trusted=(), assumptions=()):
-    PROPERTIES[pid] = {"level": level, "explanation": explanation, "harnesses": harnesses,
-                       "trusted": list(trusted), "assumptions": list(assumptions)}
+from api import H, prop, PROPERTIES, load_props
 
 # ---------------------------------------------------------------------------- C16
 B = "harness/C16_bitops.c"
@@ -157,3 +151,6 @@ prop("C20", "proof",
               "CBMC's va_list model"],
      assumptions=["ghost message count is maintained by the harness (+1 per recorded message, 0 at clear)",
                   "mlog_dump: one query per watched line index k; the quick tier runs 15 of the 256 values (partial), the thorough tier all 256 (complete)"])
+
+# properties registered by per-property modules (run/props/<ID>.py)
+load_props()
